@@ -59,7 +59,7 @@ class SimDeadlock(RuntimeError):
     pass
 
 
-DEFAULT_SCHED = {"dur": [1.0], "lat": [0.0], "slow": {}, "stall": [], "tie": [0], "chunk": "default", "advance": 0, "tslice": [1000000]}
+DEFAULT_SCHED = {"dur": [1.0], "lat": [0.0], "slow": {}, "stall": [], "tie": [0], "chunk": "default", "advance": 0, "tslice": [1000000], "tmo": [1]}
 
 
 class Kernel(object):
@@ -81,6 +81,7 @@ class Kernel(object):
         self.uncontrolled = 0
         self.maps = []               # per map call: dict(n_workers, chunks, completion order)
         self.events_run = 0
+        self.tmo_counter = 0
         self.threads_in_flight = []  # tasks of thread pools whose bodies have not finished
         self.tslice_counter = 0
 
@@ -170,6 +171,14 @@ class Kernel(object):
         for _ in range(n):
             if not self.step():
                 break
+
+    def timeout_fires(self):
+        t = self.sched.get("tmo") or [1]
+        v = t[self.tmo_counter % len(t)]
+        self.tmo_counter += 1
+        if v and self.res is not None:
+            self.res.count("fault.bounded_wait_timed_out")
+        return bool(v)
 
     def run_threads_until(self, target):
         """co-schedule the bodies of all thread-pool tasks in flight, a plan-given slice of aotools lines at a time,
@@ -359,8 +368,11 @@ class _AsyncResult(object):
 
     def wait(self, timeout=None):
         if timeout is not None and not self._done:
-            # a bounded wait lets a plan-decided amount of simulated progress happen
+            # a bounded wait lets a plan-decided amount of simulated progress happen; if the result is still missing the
+            # plan decides whether the wait times out now or the result arrives just in time
             self._k.advance(1 + self._k.sched.get("advance", 0))
+            if not self._done and not self._k.timeout_fires():
+                self._k.run_until(lambda: self._done, "an async result")
             return
         self._k.run_until(lambda: self._done, "an async result")
 
@@ -407,9 +419,15 @@ class _IMapIterator(object):
             return self._next in self._slots
         return bool(self._ready)
 
-    def __next__(self):
+    def __next__(self, timeout=None):
         if self._yielded >= self._n:
             raise StopIteration
+        if timeout is not None and not self._have():
+            # a bounded wait: some simulated progress happens; whether the item arrives in time is the plan's decision
+            self._k.advance(1 + int(self._k.sched.get("advance", 0)))
+            if not self._have():
+                if self._k.timeout_fires():
+                    raise _mp.TimeoutError
         self._k.run_until(self._have, "the next imap item")
         if self._ordered:
             ok, v = self._slots.pop(self._next)
